@@ -40,12 +40,17 @@ HJ_NOTE = ('Bounded: <=3-4 athletes, <=4 regular + <=3 jump-off heights (per-con
 reg('C02', 'hjmc', 'model_checking',
     'Explicit-state BFS over the real HighJumpCompetition object: every reachable state within the bounds x every call of the alphabet (legal or not) is '
     'executed on a clone; refusals are checked for exception type and for leaving the complete reflected object state untouched, acceptances are '
-    'compared in lock-step with a rule reference model (accept/refuse, cards, phase), state order is monitored on every transition.',
+    'compared in lock-step with a rule reference model (accept/refuse, cards, phase), state order is monitored on every transition. Read-only queries '
+    'are transitions too (a query that changes the object yields a state of its own). The same universal checks are applied to every single '
+    'deviating call at every prefix of three long real competitions, at every node of a long jump-off enumeration, and to BFS bounds re-run with '
+    'the bar heights passed as floats / two- and three-place Decimals.',
     HJ_NOTE, 'explicit-state model checking of the implementation (BFS over real object states, lock-step reference model)', 'DESIGN.md 2.1, 3/C02')
 reg('C03', 'hjmc', 'model_checking',
     'Places, bests and ranking shape recomputed from the result cards alone on every terminal state of the BFS, plus a round-structured exhaustive '
     'enumeration of complete competitions (every legal attempt string per athlete per height, every rule-conforming jump-off continuation with the '
-    'bar raised, repeated or lowered) and a tie-focused enumeration that reaches 3-4 athlete jump-offs of 2-3 heights.',
+    'bar raised, repeated or lowered), a tie-focused enumeration that reaches 3-4 athlete jump-offs of 2-3 heights, jump-offs of up to 6-8 rounds, '
+    'every multiset of 4-7 result cards from a reduced card set (larger fields), and the single-deviation neighbourhood of three long real competitions; '
+    'parts are repeated with float and Decimal centimetre heights.',
     HJ_NOTE, 'explicit-state model checking + exhaustive bounded enumeration of complete competitions on the real object', 'DESIGN.md 2.1, 3/C03')
 reg('C08', 'hjmc', 'model_checking',
     'On every state reached by the BFS: the action log replays to an equal observable snapshot, the exported card re-imports to the same state, bests '
